@@ -1,6 +1,7 @@
 """R-LAY (layouts, packed-counter agreement, constant relations, computed space overheads) and
 R-TAB (the in-byte select table, checked exhaustively against its definition)."""
 import collections
+import re
 
 from .core import *
 from .report import Inst
@@ -80,12 +81,20 @@ def _shift_consts(F, rv, prof, which):
         if amt[1] != 0:   # a shift by a folded 0 (field #0 through a helper) moves nothing
             prof['abs_' + which].add(amt[1])
         return
-    for st in subterms(amt):
-        if isinstance(st, tuple) and st and st[0] == 'bin' and st[1] == 'Mul':
+    # the amount is affine in a field number: k * W, C - k * W, (k - 1) * W ...; only its top-level sum is inspected (a
+    # multiplication buried under a mask, e.g. in the computation of k itself, is not a field width)
+    work = [amt]
+    while work:
+        st = strip_casts(work.pop())
+        if not (isinstance(st, tuple) and st and st[0] == 'bin'):
+            continue
+        if st[1] in ('Add', 'Sub'):
+            work.extend([st[2], st[3]])
+        elif st[1] == 'Mul':
             for x in (st[2], st[3]):
                 if x[0] == 'const':
                     prof['step_' + which].add(x[1])
-        if isinstance(st, tuple) and st and st[0] == 'bin' and st[1] == 'Shl' and st[3][0] == 'const':
+        elif st[1] == 'Shl' and st[3][0] == 'const':
             prof['step_' + which].add(1 << st[3][1])
 
 
@@ -333,7 +342,9 @@ def rule_LAY(FA):
 
     def need(name, val):
         if val is None:
-            rel.append((name, 'violation', 'constant not found (anchor lost)'))
+            # a private constant may be renamed; its value is then checked where it is used (R-DAR, R-SMP, R-HINT read the
+            # literal values from the code), so a missing name is not an alarm
+            rel.append((name, 'note', 'constant not found under the name it had on the reviewed tree'))
         return val is not None
     nb, nh1, nh0 = _const(FA, 'bitvector::rs_narrow::BLOCK_SIZE'), _const(FA, 'bitvector::rs_narrow::SELECT_ONES_PER_HINT'), _const(FA, 'bitvector::rs_narrow::SELECT_ZEROS_PER_HINT')
     if need('rs_narrow hint period', nb) and need('rs_narrow hint period', nh1) and need('rs_narrow hint period', nh0):
@@ -361,6 +372,36 @@ def rule_LAY(FA):
         name, st, detail = r[0], r[1], r[2]
         props = r[3] if len(r) > 3 else ['C05', 'C06', 'C07']
         out.append(Inst('R-LAY', 'R-LAY|c|%s' % name, st, '', detail, props))
+    # (d) the public type aliases are what their names say: the block size and the prefetch flag in the name are the ones
+    # in the aliased type (the stated overheads 1/8, 1/16 and "prefetch support < 1%" are per alias)
+    n_al = 0
+    for name, ty in sorted(FA.aliases.items()):
+        short = name.split('::')[-1]
+        m = re.match(r'^(H?)(QWT|WT|RSQVector)(256|512)?(Pfs)?$', short)
+        if not m:
+            continue
+        n_al += 1
+        huff, kind, bs, pfs = m.groups()
+        problems = []
+        if bs == '512' and '<512>' not in ty:
+            problems.append('name says block size 512, type is `%s`' % ty.split('RSQVector')[-1][:60])
+        if bs == '256' and ('<512>' in ty or (re.search(r'RSSupportPlain<(\d+)>', ty) and '<256>' not in ty)):
+            problems.append('name says block size 256, type is `%s`' % ty.split('RSQVector')[-1][:60])
+        if kind == 'QWT':
+            has_pfs = ty.rstrip('>').endswith(', true') or ty.endswith(', true>')
+            if bool(pfs) != has_pfs:
+                problems.append('name %s prefetch support, type %s it' % ('says' if pfs else 'does not say', 'has' if has_pfs else 'does not have'))
+            if bool(huff) != ('HuffQWaveletTree' in ty):
+                problems.append('Huffman-shaped name / plain type mismatch')
+        if kind == 'WT':
+            comp = ty.endswith(', true>')
+            if bool(huff) != comp:
+                problems.append('name %s compressed, type %s' % ('says' if huff else 'does not say', 'is' if comp else 'is not'))
+        props = ['C14', 'C09'] + (['C02'] if huff and kind == 'QWT' else ['C01'] if kind == 'QWT' else ['C03'] if kind == 'WT' else ['C05'])
+        out.append(Inst('R-LAY', 'R-LAY|d|alias %s' % short, 'violation' if problems else 'ok', 'src/lib.rs',
+                        '; '.join(problems) if problems else '%s = %s' % (short, ty.replace('qvector::rs_qvector::rs_support_plain::', '').replace('qvector::rs_qvector::', '')[:110]), props))
+    if FA.aliases is not None and n_al == 0:
+        out.append(Inst('R-LAY', 'R-LAY|d|aliases', 'note', '', 'no QWT*/HQWT*/WT/HWT type alias found', ['C14'], nontrivial=False))
     # computed relative overheads (C14)
     sb = (FA.layouts.get('qvector::rs_qvector::rs_support_plain::SuperblockPlain') or {}).get('layout')
     if sb and b1:
@@ -474,8 +515,9 @@ def rule_SPLIT(FA):
     seen_fns = set()
     for f in FA.lib_fns(include_closures=False):
         k = fn_key(f)
+        fi = FA.inlined(f)   # quotient and remainder of one position may be taken in different private helpers
         for spec in FA.specs(f):
-            F = FA.fn(f, spec)
+            F = FA.fn(fi, spec)
             F.dom()
             uses = collections.defaultdict(set)
             lines = {}
@@ -511,7 +553,9 @@ def rule_SPLIT(FA):
                     continue
                 props = SPLIT_TABLE.get(k)
                 key = 'R-SPLIT|%s%s|%s' % (k, spec_key(spec), show(a)[:50])
-                if Q == M:
+                # a contradiction needs a quotient without its remainder AND a remainder without its quotient (`>> 6` with
+                # `& 31`); an extra quotient alone (line index next to word index) is not one
+                if not (Q - M and M - Q):
                     if props:
                         seen_fns.add(k)
                         out.append(Inst('R-SPLIT', key, 'ok', lines[a], 'index split by %s: quotient and remainder agree' % sorted(Q), props,
@@ -646,6 +690,44 @@ def rule_SMP(FA):
             order_ok = bool(inc_blocks) and all(bj not in dom[bi] for bj in inc_blocks)
     key = 'R-SMP|RSSupportPlain select samples'
     problems = []
+    # inclusive / exclusive convention of the sample values: every sample (and the final sentinel) is the id of an existing
+    # superblock, so the writer's sentinel is `superblocks.len() - 1` and the reader turns the NEXT sample into an exclusive
+    # upper bound by adding 1
+    sent = []
+    for bi, t in W.calls():
+        if t['f']['fn']['name'] != 'push' or len(t['args']) != 2:
+            continue
+        v = norm(W.operand_term(t['args'][1]))
+        lens = [x for x in subterms(v) if isinstance(x, tuple) and x[:1] == ('call',) and x[1].split('::')[-1] == 'len']
+        if not lens:
+            continue
+        sv = strip_casts(v)
+        incl = sv[:2] == ('bin', 'Sub') and sv[3] == ('const', 1) and strip_casts(sv[2])[:1] == ('call',)
+        sent.append((incl, show(v)[:60], t.get('line', '')))
+    next_plus_one = None
+    for bi, b in enumerate(R.blocks):
+        if bi not in R.reach:
+            continue
+        for s_ in b['s']:
+            rv = s_.get('rv')
+            if not rv:
+                continue
+            tm = _resolve_consts_l(FA, norm(R.rvalue_term(rv)))
+            for st in subterms(tm):
+                if isinstance(st, tuple) and st[:1] == ('index',) and any(isinstance(x, tuple) and x[:1] == ('field',) and x[2] == 'select_samples' for x in subterms(st[1])):
+                    core, plus = _affine(norm(st[2]))
+                    if plus == 1 + cand[0][0]:
+                        # this is the read of the NEXT slot: is it used as `1 + sample`?
+                        if next_plus_one is None:
+                            next_plus_one = False
+                        for outer in subterms(tm):
+                            if isinstance(outer, tuple) and outer[:2] == ('bin', 'Add') and ('const', 1) in (outer[2], outer[3]) \
+                                    and st in (strip_casts(outer[2]), strip_casts(outer[3])):
+                                next_plus_one = True
+    if sent and not all(i for i, _, _ in sent):
+        problems.append('the sentinel pushed after the last sample is `%s`, not the id of the last superblock (`superblocks.len() - 1`): samples are inclusive superblock ids' % [v for i, v, _ in sent if not i][0])
+    if next_plus_one is False:
+        problems.append('select_block uses the next sample as its upper bound without adding 1: samples are inclusive superblock ids, the superblock that holds the sampled occurrence is excluded from the search')
     if N_w is None:
         problems.append('writer: no push under `counter % N == 0` found')
     elif N_w != N_r:
